@@ -64,7 +64,17 @@ if [ "$ID" = "selftest-instrument" ]; then
   exit 0
 fi
 
-( cd "$VERIF" && go build -race -trimpath -modfile="$SCR/go.mod" -o "$SCR/simworld" ./cmd/simworld ) >"$SCR/build.log" 2>&1 \
+# --- sync.Pool seam: under the race detector Pool.Put drops objects at random
+# (runtime_randn) and Pool hand-overs create happens-before edges between
+# tasks (fmt, encoding/json, ... use pools). In the worker build Put always
+# drops, so pools are deterministic and edge-free. Overlay, not a GOROOT edit.
+GOROOT_DIR="$(go env GOROOT)"
+POOL="$GOROOT_DIR/src/sync/pool.go"
+grep -q 'if runtime_randn(4) == 0 {' "$POOL" || fail2 "sync/pool.go of this toolchain has an unexpected shape"
+sed 's/if runtime_randn(4) == 0 {/if true || runtime_randn(4) == 0 {/' "$POOL" > "$VERIF/bin/pool_overlay.go"
+printf '{"Replace": {"%s": "%s"}}\n' "$POOL" "$VERIF/bin/pool_overlay.go" > "$VERIF/bin/overlay.json"
+
+( cd "$VERIF" && go build -race -trimpath -overlay "$VERIF/bin/overlay.json" -modfile="$SCR/go.mod" -o "$SCR/simworld" ./cmd/simworld ) >"$SCR/build.log" 2>&1 \
   || { cat "$SCR/build.log" >&2; fail2 "building the instrumented worker failed (does the tree compile?)"; }
 
 [ "$MODE" = "build" ] && { echo "build ok"; exit 0; }
